@@ -216,12 +216,13 @@ class Program:
         self._load()
         self._link()
         if normalise:
-            from .inline import _logger_names, normalise_accumulators, normalise_conditional_assignments, normalise_ifexp, normalise_keys, strip_logging
+            from .inline import _logger_names, normalise_accumulators, normalise_conditional_assignments, normalise_ifexp, normalise_keys, normalise_suppress, strip_logging
             loggers = {m.name: _logger_names(m.tree, m.resolve) for m in self.modules.values()}
             for fi in self.functions.values():
                 if fi.parent is None:
                     strip_logging(fi.node, loggers.get(fi.module.name, set()))
                     normalise_keys(fi.node)
+                    normalise_suppress(fi.node, fi.module.resolve)
                     normalise_accumulators(fi.node)
                     normalise_conditional_assignments(fi.node)
                     normalise_ifexp(fi.node)
